@@ -679,6 +679,40 @@ replay_once(const char *fn, int fail_at)
 	vp_alloc_fail_at = fail_at;
 	if (fail_at)
 		printf("-- again, allocation #%d fails --\n", fail_at);
+	if (IS("nni_msg_header") || IS("nni_msg_header_len") || IS("nni_msg_body") || IS("nni_msg_len") || IS("nni_msg_header_clear") ||
+	    IS("nni_chunk_room")) {
+		/* accessors: any structure contents (their contracts require a valid structure only) */
+		nni_msg *m = calloc(1, sizeof(*m));
+		uint8_t  some[8];
+		if (!vp_has("vp_in_acc_hlen") && !vp_has("vp_in_room_cap")) {
+			free(m);
+			SKIP("trace has no entry snapshot");
+		}
+		m->m_header_len  = vp_u64("vp_in_acc_hlen", 0);
+		m->m_body.ch_len = IS("nni_chunk_room") ? vp_u64("vp_in_room_len", 0) : vp_u64("vp_in_acc_len", 0);
+		m->m_body.ch_cap = vp_u64("vp_in_room_cap", 0);
+		m->m_body.ch_ptr = some;
+		printf("%s on {header_len=%zu body len=%zu cap=%zu}\n", fn, m->m_header_len, m->m_body.ch_len, m->m_body.ch_cap);
+		if (IS("nni_msg_header"))
+			VP_EXPECT(nni_msg_header(m) == (void *) m->m_header_buf);
+		else if (IS("nni_msg_header_len"))
+			VP_EXPECT(nni_msg_header_len(m) == vp_u64("vp_in_acc_hlen", 0));
+		else if (IS("nni_msg_body"))
+			VP_EXPECT(nni_msg_body(m) == (void *) some);
+		else if (IS("nni_msg_len"))
+			VP_EXPECT(nni_msg_len(m) == vp_u64("vp_in_acc_len", 0));
+		else if (IS("nni_msg_header_clear")) {
+			nni_msg_header_clear(m);
+			VP_EXPECT(m->m_header_len == 0 && m->m_body.ch_len == vp_u64("vp_in_acc_len", 0));
+		} else if (m->m_body.ch_len <= m->m_body.ch_cap) {
+			VP_EXPECT(nni_chunk_room(&m->m_body) == m->m_body.ch_cap - m->m_body.ch_len);
+		} else {
+			free(m);
+			SKIP("precondition: len <= cap");
+		}
+		free(m);
+		return (0);
+	}
 	if (IS("nni_msg_alloc")) {
 		size_t   sz = vp_u64("vp_arg_sz", 0);
 		nni_msg *m  = (nni_msg *) (uintptr_t) 0x5a5a;
